@@ -35,9 +35,10 @@ type LifeSpec struct {
 // Spec is the configuration of one history.
 type Spec struct {
 	Seed       uint64     `json:"seed"`
-	Cred       string     `json:"cred"`    // password | keytab
-	ETypes     []int32    `json:"etypes"`  // client's configured list, in order
-	Preauth    string     `json:"preauth"` // none | required | required-bare (no salt hint, cname/crealm omitted from the error) | assume
+	Cred       string     `json:"cred"`                  // password | keytab
+	ETypes     []int32    `json:"etypes"`                // client's configured list, in order
+	Preauth    string     `json:"preauth"`               // none | required | required-bare (no salt hint, cname/crealm omitted from the error) | assume
+	LegacyInfo string     `json:"legacy_info,omitempty"` // the KDC's hints also hold a PA-ETYPE-INFO naming another etype and salt: "after" / "before" the PA-ETYPE-INFO2
 	Salted     bool       `json:"salted"`
 	Params     bool       `json:"params"` // the client's keys use a non-default iteration count
 	Fwd        bool       `json:"forwardable"`
@@ -126,6 +127,7 @@ func Build(s *Spec) (*World, error) {
 			case "required-bare":
 				pol.PreauthRequired, pol.OmitErrCName = true, true
 			}
+			pol.LegacyInfo = s.LegacyInfo
 		}
 		r := w.W.AddRealm(RealmName(i), pol)
 		w.Realms = append(w.Realms, r)
